@@ -490,8 +490,8 @@ func ruleC11_2(c *Ctx) {
 		c.undecided(R, "(*in_toto.Metablock).GetSignableRepresentation", "anchor", 0, "not found")
 		return
 	}
-	call := firstCall(gs, "ssl/cjson.EncodeCanonical")
-	c.check(call != nil && org(call.Common().Args[0]) == "p0.Signed", R, fname(gs), "canonicaliser is securesystemslib cjson applied to Signed", gs.Pos(), "cjson.EncodeCanonical(mb.Signed)", "the signable representation is not cjson.EncodeCanonical(mb.Signed)")
+	call, arg := c.canonicalSite(gs)
+	c.check(call != nil && org(arg) == "p0.Signed", R, fname(gs), "canonicaliser is securesystemslib cjson applied to Signed", gs.Pos(), "cjson.EncodeCanonical(mb.Signed)", "the signable representation is not cjson.EncodeCanonical(mb.Signed)")
 	for _, r := range returnsOf(gs) {
 		pc, idx := producer(r.Results[0], r)
 		c.check(call != nil && pc == call && idx == 0, R, fname(gs), "returns exactly the canonical bytes", instrPos(r), "no post-processing", "the canonical bytes are post-processed: "+short(org(r.Results[0])))
@@ -1036,8 +1036,11 @@ func ruleC12_4(c *Ctx) {
 	for _, m := range []string{"p0.Keys", "p0.RootCas", "p0.IntermediateCas"} {
 		ok := false
 		for _, call := range callsIn(vl, "in_toto.validateLayoutKeys") {
-			if org(call.Common().Args[0]) == m {
-				ok = true
+			// given directly, or as an element of a slice literal that a range loop walks completely
+			for _, v := range rangedLiteralElems(call.Common().Args[0], call) {
+				if org(v) == m {
+					ok = true
+				}
 			}
 		}
 		c.check(ok, R, fname(vl), "key map "+strings.TrimPrefix(m, "p0.")+" is validated", vl.Pos(), "validateLayoutKeys("+m+")", "layout."+strings.TrimPrefix(m, "p0.")+" is not validated")
